@@ -162,7 +162,7 @@ func ruleR03_3(c *Check) {
 				}
 				return false
 			})
-			r.FollowAll(g, "completion closure is run", selNode(call), 0, uses, 0, exitSuccess, excuseErrNonNil(w))
+			r.FollowAll(g, "completion closure is run", selNode(call), 0, uses, 0, exitSuccess, excuseErrOf(w, call.(*ast.CallExpr)))
 		}
 	}
 	// runTxnCallback invokes cb.commit when set
